@@ -23,6 +23,9 @@ func (c *Client) metricsInc(ctx context.Context, delta queryMetrics) {
 		return
 	}
 
+	c.metricsMux.Lock()
+	defer c.metricsMux.Unlock()
+
 	v.Bytes += delta.Bytes
 	v.Rows += delta.Rows
 	v.RowsReceived += delta.RowsReceived
